@@ -650,6 +650,33 @@ pub fn lcp<'a>(items: impl IntoIterator<Item = &'a str>) -> String {
 /// `names`: every name that takes part in completion (visible groups, any order, plus `help` when
 /// the caller decides it takes part). `line`/`cursor` (in chars): editor state. `cap`: buffer bytes.
 pub fn ref_complete(names: &[String], line: &str, cursor: usize, cap: usize) -> Completion {
+    ref_complete_p(names, line, cursor, cap, false)
+}
+
+/// `marked`: a hand-written implementation called the public `mark_partial()`; whether the blank after a
+/// single match is still appended is then said nowhere (both accepted), everything else stays as stated.
+pub fn ref_complete_p(names: &[String], line: &str, cursor: usize, cap: usize, marked: bool) -> Completion {
+    // names hold no blanks, so a result ending in a blank is "single match, blank appended"
+    let bare = |f: &String| f[..f.len() - 1].to_string();
+    match ref_complete_inner(names, line, cursor, cap) {
+        Completion::Exactly(f) if marked && f.ends_with(' ') => {
+            let b = bare(&f);
+            Completion::OneOf { allowed: vec![f, b], or_unchanged: false }
+        }
+        Completion::OneOf { mut allowed, or_unchanged } if marked => {
+            let extra: Vec<String> = allowed.iter().filter(|f| f.ends_with(' ')).map(bare).collect();
+            for e in extra {
+                if !allowed.contains(&e) {
+                    allowed.push(e);
+                }
+            }
+            Completion::OneOf { allowed, or_unchanged }
+        }
+        other => other,
+    }
+}
+
+fn ref_complete_inner(names: &[String], line: &str, cursor: usize, cap: usize) -> Completion {
     let nchars = line.chars().count();
     let lead_len = line.len() - line.trim_start_matches(' ').len();
     let body = &line[lead_len..];
